@@ -7,7 +7,7 @@
 From Coq Require Import String.
 From Coq Require Import List Ascii ZArith Bool.
 From CGV Require Import Base.PyBase Base.PyVal Gen.FragGen Dialect.DialectImpl Frag.NDict Frag.StripImpl Frag.FragText
-     Frag.StripFacts Frag.FragProofs Frag.FragStages Frag.FragSmall Frag.RingProofs
+     Frag.StripFacts Frag.FragProofs Frag.FragTextX Frag.FragProofsX Frag.FragStages Frag.FragSmall Frag.RingProofs
      Gen.SmilesGen Frag.SmilesParse Frag.SmilesSpec Frag.SmilesProofs Frag.SmilesIndex Frag.SmilesRelabel Frag.SmilesPerm
      Frag.Template Frag.TemplateProofs Frag.TemplateFinal Frag.TemplateGraph Frag.TemplateCompose Frag.SmilesReverse Frag.SmilesPermR.
 From CGV Require Import Base.NxGraph Compose.CutModel Compose.CutSpecDefs.
@@ -25,6 +25,20 @@ Import ListNotations.
 Theorem C13_partial : forall fo toks dc, wf toks dc = true -> excluded toks dc = false ->
   strip_bonding_descriptors fo (render (decorate toks dc)) = strip_spec fo toks dc.
 Proof. exact strip_correct. Qed.
+
+(** the same on the domain extended by a bond symbol directly in front of "(" — the documented
+    placement of the order of a branch edge in a coarse fragment, `[#A]=([#B])[#C]`: [wfx] is [wf] with
+    "(" allowed after a bond symbol; every text of [wf] is in [wfx]; the symbol stays in the clean text *)
+Theorem C13_partial_branch_symbol : forall fo toks dc, wfx toks dc = true -> excluded toks dc = false ->
+  strip_bonding_descriptors fo (render (decorate toks dc)) = strip_spec fo toks dc.
+Proof. exact strip_correct_x. Qed.
+Theorem C13_wf_in_wfx : forall toks dc, wf toks dc = true -> wfx toks dc = true.
+Proof. exact wf_wfx. Qed.
+Example C13_branch_symbol_nonvacuous :
+  wf bx_toks bx_dc = false /\ wfx bx_toks bx_dc = true /\ excluded bx_toks bx_dc = false /\
+  to_string (render (decorate bx_toks bx_dc)) = "[$][#A]=([#B]#[>])-([#C])[#D]"%string /\
+  exists a, strip_spec (fo_of_table []) bx_toks bx_dc = Ok (S "[#A]=([#B])-([#C])[#D]", [(0, [S "$1"]); (1, [S ">3"])], [], a).
+Proof. exact branch_symbol_example. Qed.
 
 (** non-vacuity: [>]=C(/Cl)=1-[$a]C[NH3+]#[<]C1=[!2][$] is in the domain, outside the class, and its
     specification value is the expected one *)
@@ -380,6 +394,7 @@ Theorem C13_smiles_orders : forall b, smiles_bond_to_order_lookup [bchar b] = Ok
 Proof. exact smiles_order_bchar. Qed.
 
 Print Assumptions C13_partial.
+Print Assumptions C13_partial_branch_symbol.
 Print Assumptions C13_refuted_coarse_multiplier.
 Print Assumptions C13_chains.
 Print Assumptions C13_branches.
